@@ -7,7 +7,10 @@ Topology Utilities
 import copy
 import re
 
-from vivarium.library.dict_utils import deep_merge, deep_merge_multi_update
+from vivarium.library.dict_utils import (
+    deep_merge, deep_merge_multi_update, MULTI_UPDATE_KEY)
+
+_NO_UPDATE = object()
 
 
 def get_in(d, path, default=None):
@@ -175,13 +178,21 @@ def inverse_topology(outer, update, topology, inverse=None, multi_updates=True):
                 for child, child_update in update.items():
                     inner = normalize_path(outer + path + (child,))
                     if isinstance(child_update, dict):
-                        inverse = update_in(
-                            inverse,
-                            inner,
-                            lambda current: deep_merge(
-                                current, child_update))
+                        if multi_updates:
+                            inverse = update_in(
+                                inverse,
+                                inner,
+                                lambda current: deep_merge_multi_update(
+                                    current, child_update))
+                        else:
+                            inverse = update_in(
+                                inverse,
+                                inner,
+                                lambda current: deep_merge(
+                                    current, child_update))
                     else:
-                        assoc_path(inverse, inner, child_update)
+                        _assoc_update(
+                            inverse, inner, child_update, multi_updates)
 
         elif key in update:
             value = update[key]
@@ -217,8 +228,25 @@ def inverse_topology(outer, update, topology, inverse=None, multi_updates=True):
                             inner,
                             lambda current: deep_merge(current, value))
                 else:
-                    assoc_path(inverse, inner, value)
+                    _assoc_update(inverse, inner, value, multi_updates)
     return inverse
+
+
+def _assoc_update(inverse, path, value, multi_updates):
+    '''Insert the non-dictionary update ``value`` at ``path``.
+
+    When several port variables are wired to the same node their updates
+    collide at ``path``; like ``deep_merge_multi_update`` does for
+    dictionaries, keep all of them under the ``_multi_update`` key instead
+    of letting the last one overwrite the others.
+    '''
+    existing = get_in(inverse, path, _NO_UPDATE) if path else _NO_UPDATE
+    if not multi_updates or existing is _NO_UPDATE:
+        assoc_path(inverse, path, value)
+    elif isinstance(existing, dict) and MULTI_UPDATE_KEY in existing:
+        existing[MULTI_UPDATE_KEY].append(value)
+    else:
+        assoc_path(inverse, path, {MULTI_UPDATE_KEY: [existing, value]})
 
 
 def normalize_path(path):
